@@ -9,8 +9,8 @@ The cache object and the decorated method are outside the wrapper; they are desc
   * `EmbeddingsCache.from_config(cfg)` yields a cache whose content is a map text -> vector (A-KEY: the key generator is injective on
     the texts in play and the store is a map) that is COHERENT: a stored, non-None vector is the model's vector for its text
     (false when two models share one store: known finding KF-C19-two-models-one-store);
-  * `cache.get(texts)` returns a fresh dict with exactly the texts of `texts` that have a stored non-None vector, mapped to it;
-  * `cache.set(texts, values)` stores under every text of `texts` the value given for (an occurrence of) it and changes nothing else;
+  * the list forms `cache.get(texts)` / `cache.set(texts, values)` are NOT assumed: they are the real EmbeddingsCache methods, verified
+    below against the single-text forms `get(text)` / `set(text, value)`, which are the map abstraction itself (assumed);
   * `func(self, texts)` (the decorated `_get_embeddings`) returns one vector per text, in order: the model's vector, never None.
 Batching and concurrency are not part of this contract (bounded native check)."""
 from pyvc.api import *
@@ -29,22 +29,6 @@ COHERENT = "all(implies(not is_none(val(%s._mem, t)), val(%s._mem, t) is model_o
 opaque("from_config", assigns=[], raises=["Exception"], result_class="EmbeddingsCache",
        ensures=["has(result, '_mem')", "is_dict(result._mem)", "fresh(result._mem)", COHERENT % (("result",) * 3)],
        note="EmbeddingsCache.from_config: a cache object whose content is a coherent map text -> vector (A-KEY, store coherence: assumed)")
-opaque("get", assigns=[], raises=["Exception"], result_class="dict",
-       ensures=["all(has(recv._mem, t) and not is_none(val(recv._mem, t)) and val(result, t) is val(recv._mem, t) and "
-                "    any(item(arg0, i) is t for i in range(llen(arg0))) for t in keys(result))",
-                "all(implies(has(recv._mem, item(arg0, i)) and not is_none(val(recv._mem, item(arg0, i))), has(result, item(arg0, i))) "
-                "    for i in range(llen(arg0)))"],
-       note="EmbeddingsCache.get(list): fresh dict of exactly the listed texts that have a stored non-None vector (assumed contract)")
-opaque("set", assigns=["recv._mem"], raises=["Exception"],
-       ensures=["is_dict(recv._mem)", "recv._mem is old(recv._mem)",
-                "all(has(recv._mem, item(arg0, i)) for i in range(llen(arg0)))",
-                "all(any(item(arg0, j) is item(arg0, i) and val(recv._mem, item(arg0, i)) is item(arg1, j) for j in range(llen(arg0))) "
-                "    for i in range(llen(arg0)))",
-                "all(implies(all(item(arg0, i) is not t for i in range(llen(arg0))), has(recv._mem, t) == old(has(recv._mem, t)) and "
-                "            val(recv._mem, t) is old(val(recv._mem, t))) for t in strs())",
-                "all(any(item(arg0, i) is t for i in range(llen(arg0))) or old(has(recv._mem, t)) for t in keys(recv._mem))"],
-       note="EmbeddingsCache.set(list, list): every text of `texts` is stored with the value given for an occurrence of it, nothing else changes (assumed contract; "
-            "requires len(values) == len(texts))")
 opaque("func", assigns=[], raises=["Exception"], result_class="list",
        ensures=["llen(result) == llen(arg1)",
                 "all(item(result, i) is model_of(item(arg1, i)) and not is_none(item(result, i)) for i in range(llen(arg1)))"],
@@ -58,4 +42,58 @@ contract(
              "all(item(result, i) is model_of(item(texts, i)) for i in range(llen(texts)))"],
     raises={"Exception": "True"},
     assigns=["*"],
+)
+
+
+# ---------------------------------------------------------------------------------------------------------------------------
+# the two assumed list-form contracts above, VERIFIED one level down: the real EmbeddingsCache.get / set for lists
+# (functools.singledispatchmethod registrations named `_`: the 2nd and the 4th in the class) against the single-text forms,
+# which are the map abstraction itself (key generator + store: assumed)
+# ---------------------------------------------------------------------------------------------------------------------------
+GET1 = dict(assigns=[], raises=["Exception"],
+            ensures=["result is (val(recv._mem, arg0) if has(recv._mem, arg0) else None)"],
+            note="EmbeddingsCache.get(text): what the store holds under the text's key, None when absent (A-KEY; assumed)")
+SET1 = dict(assigns=["recv._mem"], raises=["Exception"],
+            ensures=["is_dict(recv._mem)", "recv._mem is old(recv._mem)", "has(recv._mem, arg0)", "val(recv._mem, arg0) is arg1",
+                     "all(implies(t is not arg0, has(recv._mem, t) == old(has(recv._mem, t)) and val(recv._mem, t) is old(val(recv._mem, t))) for t in values_any())"],
+            note="EmbeddingsCache.set(text, value): the store holds the value under the text's key afterwards, nothing else changes (A-KEY; assumed)")
+SELF = ["is_obj(self)", "has(self, '_mem')", "is_dict(self._mem)", "is_list(texts)", "all(is_str(item(texts, i)) for i in range(llen(texts)))"]
+
+contract(
+    CACHE, "EmbeddingsCache._#2", prop="C19", alias="get", opaque_here={"get": GET1}, allocates=True,
+    requires=SELF + ["self._mem is not texts"],
+    ensures=["is_dict(result)", "fresh(result)",
+             "all(has(self._mem, t) and not is_none(val(self._mem, t)) and val(result, t) is val(self._mem, t) and "
+             "    any(item(texts, i) is t for i in range(llen(texts))) for t in keys(result))",
+             "all(implies(has(self._mem, item(texts, i)) and not is_none(val(self._mem, item(texts, i))), has(result, item(texts, i))) "
+             "    for i in range(llen(texts)))",
+             "unchanged(self._mem)"],
+    raises={"Exception": "True"},
+    loops={"for text in texts": dict(modifies=["cached"], inv=[
+        "is_dict(cached)", "fresh(cached)",
+        "all(has(self._mem, t) and not is_none(val(self._mem, t)) and val(cached, t) is val(self._mem, t) and "
+        "    any(i < _k and item(texts, i) is t for i in range(llen(texts))) for t in keys(cached))",
+        "all(implies(i < _k and has(self._mem, item(texts, i)) and not is_none(val(self._mem, item(texts, i))), has(cached, item(texts, i))) "
+        "    for i in range(llen(texts)))"])},
+)
+
+contract(
+    CACHE, "EmbeddingsCache._#4", prop="C19", alias="set", opaque_here={"set": SET1}, assigns=["self._mem"],
+    requires=SELF + ["is_list(values)", "llen(values) == llen(texts)", "self._mem is not texts", "self._mem is not values"],
+    ensures=["is_dict(self._mem)", "self._mem is old(self._mem)",
+             "all(has(self._mem, item(texts, i)) for i in range(llen(texts)))",
+             "all(any(item(texts, j) is item(texts, i) and val(self._mem, item(texts, i)) is item(values, j) for j in range(llen(texts))) "
+             "    for i in range(llen(texts)))",
+             "all(implies(all(item(texts, i) is not t for i in range(llen(texts))), has(self._mem, t) == old(has(self._mem, t)) and "
+             "            val(self._mem, t) is old(val(self._mem, t))) for t in values_any())",
+             "all(any(item(texts, i) is t for i in range(llen(texts))) or old(has(self._mem, t)) for t in keys(self._mem))"],
+    raises={"Exception": "True"},
+    loops={"for (text, value) in zip(texts, values)": dict(modifies=["self._mem"], inv=[
+        "is_dict(self._mem)", "self._mem is old(self._mem)", "has(self, '_mem')",
+        "all(implies(i < _k, has(self._mem, item(texts, i))) for i in range(llen(texts)))",
+        "all(implies(i < _k, any(j < _k and item(texts, j) is item(texts, i) and val(self._mem, item(texts, i)) is item(values, j) "
+        "                        for j in range(llen(texts)))) for i in range(llen(texts)))",
+        "all(implies(all(implies(i < _k, item(texts, i) is not t) for i in range(llen(texts))), has(self._mem, t) == old(has(self._mem, t)) and "
+        "            val(self._mem, t) is old(val(self._mem, t))) for t in values_any())",
+        "all(any(i < _k and item(texts, i) is t for i in range(llen(texts))) or old(has(self._mem, t)) for t in keys(self._mem))"])},
 )
